@@ -1,5 +1,6 @@
 import Skc.Proofs.Perm
 import Skc.Proofs.ElectrePerm
+import Skc.Proofs.RankerPerm
 set_option linter.unusedSectionVars false
 set_option linter.unusedVariables false
 
@@ -16,8 +17,10 @@ is entry `i` of `rank_values(s, reverse=rev)` (`rank_values_ofFn`).
 **ELECTRE** (section `electre`, model `Skc/Model/Electre.lean`): concordance, discordance, the ELECTRE1
 outranking relation and kernel, and ELECTRE2's weight-comparison relation (as specified and as coded)
 are proved to follow the alternatives under `σ` and to ignore the order of the criteria under `τ`; the
-strong / weak graphs are cell-wise functions of these.  **Not in Lean (harness only):** equivariance of
-the ELECTRE2 distillation loop under a relabelling of the graph, and the transformers that pipelines
+strong / weak graphs are cell-wise functions of these; the ELECTRE2 distillation loop, the inverse
+ranking and the final ranking are proved equivariant under any relabelling of the graph
+(`electre2_direct_relabel`, `electre2_inverted_relabel`, `electre2_rank_relabel`).  **Not in Lean
+(harness only):** the transformers that pipelines
 put in front of a method (their own permutation theorems are in `Props/C13.lean` for the weighters;
 scalers and inverters act per criterion, `Props/C11.lean` `*_column_local`).  `harness/props/c05.py`
 runs both presentations of every case on the real code for those too, and compares by label.
@@ -458,6 +461,51 @@ theorem wor_col_perm (A : Mat m n α) (o : Vec n Obj) (w : Vec n α) (τ : Equiv
   unfold worSpec worCode
   exact ⟨worBody_col_perm w (fun j => decide (o j = .max)) A τ a b,
          worBody_col_perm (fun j => (o j).sgn) (fun j => decide (w j = 1)) A τ a b⟩
+
+/-! ### ELECTRE2 distillation under a relabelling of the alternatives
+`Relabel m π`: `π` permutes the indices `0..m-1` (the row permutation `σ`, read on indices).  The
+graphs of the permuted problem are `S' a b = S (π a) (π b)` (by `wor_row_perm`, `concordance_row_perm`,
+`discordance_row_perm` the strong / weak graphs of the permuted matrix are exactly of this form). -/
+
+/-- the direct ranking follows the alternatives: whatever order they are listed in, the alternative
+at position `i` of the permuted problem gets the rank of alternative `π i` of the original problem -/
+theorem electre2_direct_relabel (S W : Graph) (k : ℕ) (π : ℕ → ℕ) (h : Relabel k π) (i : ℕ) (hi : i < k) :
+    (rankerDirect (fun a b => S (π a) (π b)) (fun a b => W (π a) (π b)) k).getD i 0 = (rankerDirect S W k).getD (π i) 0 :=
+  rankerDirect_relabel S W k π h i hi
+/-- … and so do the inverse ranking … -/
+theorem electre2_inverted_relabel (S W : Graph) (k : ℕ) (π : ℕ → ℕ) (h : Relabel k π) (i : ℕ) (hi : i < k) :
+    (rankerInverted (fun a b => S (π a) (π b)) (fun a b => W (π a) (π b)) k).getD i 0 = (rankerInverted S W k).getD (π i) 0 :=
+  rankerInverted_relabel S W k π h i hi
+/-- … and the final ranking (dense rank of the mean of the two) -/
+theorem electre2_rank_relabel (d iv : List ℕ) (k : ℕ) (hd : d.length = k) (hiv : iv.length = k)
+    (π : ℕ → ℕ) (h : Relabel k π) (i : ℕ) (hi : i < k) :
+    (electre2Rank ((List.range k).map fun j => d.getD (π j) 0) ((List.range k).map fun j => iv.getD (π j) 0)).getD i 0 =
+      (electre2Rank d iv).getD (π i) 0 :=
+  electre2Rank_relabel d iv k hd hiv π h i hi
+/-- a permutation `σ` of `Fin k` read on indices is a relabelling -/
+theorem relabel_of_perm (k : ℕ) (σ : Equiv.Perm (Fin k)) :
+    Relabel k (fun i => if h : i < k then (σ ⟨i, h⟩).val else i) := by
+  constructor
+  · apply (List.perm_ext_iff_of_nodup List.nodup_range ?_).mpr
+    · intro x
+      simp only [List.mem_range, List.mem_map]
+      constructor
+      · intro hx
+        refine ⟨(σ.symm ⟨x, hx⟩).val, (σ.symm ⟨x, hx⟩).isLt, ?_⟩
+        simp
+      · rintro ⟨y, hy, rfl⟩
+        simp [hy]
+    · refine List.Nodup.map_on ?_ List.nodup_range
+      intro a ha b hb hab
+      have ha' := List.mem_range.mp ha; have hb' := List.mem_range.mp hb
+      simp only [ha', hb', dif_pos] at hab
+      have := σ.injective (Fin.ext hab)
+      exact Fin.mk.inj_iff.mp this
+  · intro a ha b hb hab
+    have ha' := List.mem_range.mp ha; have hb' := List.mem_range.mp hb
+    simp only [ha', hb', dif_pos] at hab
+    have := σ.injective (Fin.ext hab)
+    exact Fin.mk.inj_iff.mp this
 end electre
 
 /-! ## non-vacuity -/
